@@ -37,6 +37,9 @@ def gen_cases(tier, seed):
         yield {"seed": "%d:rg%d" % (seed, i), "tokens": 3, "craft": "regen"}
     for i in range(2 if tier == "quick" else 12):
         yield {"seed": "%d:ct%d" % (seed, i), "tokens": 2, "craft": "token", "crafted_tokens": 2 if tier == "quick" else 4}
+    # one signer object of each class shared by several threads (several devices being connected at once), with pauses injected at source lines of the signing code
+    for i in range(2 if tier == "quick" else 10):
+        yield {"seed": "%d:th%d" % (seed, i), "tokens": 1, "craft": "threads", "signs_per_thread": 12 if tier == "quick" else 30}
 
 
 def emsa(token, k):
@@ -57,7 +60,43 @@ def run_case(case):
     viol = []
     stats = {"signatures_verified": 0, "blobs_checked": 0, "signer_agreements": 0, "tokens": 0}
     try:
-        path = os.path.join(tmp, "adbkey")
+        # (the public key belongs at <path> + '.pub' whatever the file is called)
+        path = os.path.join(tmp, rng.choice(["adbkey", "adbkey", "adbkey.pem", "device.key", "adbkey.v2", "my key", ".adbkey"]))
+        crafted_note = None
+        # who generates the key: the login / host name lookups may fail or return nothing (cron, containers); each falls back to 'unknown' on its own
+        import socket as _socket
+        login = rng.choice(["natural", "alice", "raise", "empty"])
+        host = rng.choice(["natural", "build-host", "empty"])
+        orig_getlogin, orig_gethostname = os.getlogin, _socket.gethostname
+        if login != "natural":
+            def _getlogin():
+                if login == "raise":
+                    raise OSError(6, "No such device or address (deliberate)")
+                return "" if login == "empty" else login
+            os.getlogin = _getlogin
+        if host != "natural":
+            _socket.gethostname = lambda: "" if host == "empty" else host
+        try:
+            try:
+                exp_user = os.getlogin() or "unknown"
+            except OSError:
+                exp_user = "unknown"
+            exp_host = _socket.gethostname() or "unknown"
+            return _run_with_identity(case, rng, tmp, path, viol, stats, exp_user, exp_host)
+        finally:
+            os.getlogin, _socket.gethostname = orig_getlogin, orig_gethostname
+    finally:
+        shutil.rmtree(tmp, ignore_errors=True)
+
+
+def _run_with_identity(case, rng, tmp, path, viol, stats, exp_user, exp_host):
+    from cryptography.hazmat.primitives import hashes, serialization
+    from cryptography.hazmat.primitives.asymmetric import padding, utils
+    from adb_shell.auth import keygen as kg
+    from adb_shell.auth.sign_cryptography import CryptographySigner
+    from adb_shell.auth.sign_pycryptodome import PycryptodomeAuthSigner
+    from adb_shell.auth.sign_pythonrsa import PythonRSASigner
+    if True:
         crafted_note = None
         if case.get("craft") == "key":
             # recombine the primes of freshly generated keys into a 2048-bit key whose rr = 2^4096 mod n (or n0inv) starts with a zero byte,
@@ -116,6 +155,10 @@ def run_case(case):
             raise RuntimeError("harness: inconsistent private key numbers")
         k = (n.bit_length() + 7) // 8
         # ---- public key file
+        if not os.path.exists(path + ".pub"):
+            seen_files = sorted(os.listdir(tmp))
+            viol.append({"mechanism": "pubfile-missing", "detail": "keygen(%r) did not write %r (directory now holds %r)" % (os.path.basename(path), os.path.basename(path) + ".pub", seen_files)})
+            return {"sig": "key|%x" % (n & ((1 << 64) - 1)), "violations": viol, "stats": stats, "sample": None}
         with open(path + ".pub", "rb") as f:
             pub = f.read()
         b64, sep, comment = pub.partition(b" ")
@@ -141,6 +184,9 @@ def run_case(case):
                 viol.append({"mechanism": "blob", "detail": "rr field is not 2^4096 mod n"})
         if sep != b" " or b"@" not in comment or not comment.strip() or comment != comment.strip(b"\n") or b" " in comment:
             viol.append({"mechanism": "blob", "detail": "public key file does not end with a ' user@host' comment: %r" % pub[-40:]})
+        elif comment != (exp_user + "@" + exp_host).encode():
+            viol.append({"mechanism": "comment", "detail": "public key comment is %r, expected %r (login name / host name, each falling back to 'unknown' on its own)" % (comment, exp_user + "@" + exp_host)})
+        stats["comments_checked"] = stats.get("comments_checked", 0) + 1
         # ---- signers
         signers = {
             "PythonRSASigner": PythonRSASigner.FromRSAKeyPath(path),
@@ -167,6 +213,8 @@ def run_case(case):
                     tokens.append(tok)
                     stats["crafted_tokens"] = stats.get("crafted_tokens", 0) + 1
         pubkey = priv.public_key()
+        if case.get("craft") == "threads":
+            _concurrent_signing(case, rng, signers, n, e, k, viol, stats)
         if case.get("craft") == "regen":
             # the same buffer object carries one challenge after the other (bytes-like tokens; python-rsa only takes bytes)
             buf = bytearray(20)
@@ -216,5 +264,82 @@ def run_case(case):
         for v in viol:
             seen.setdefault(v["mechanism"], v)
         return {"sig": "key|%x" % (n & ((1 << 64) - 1)), "violations": list(seen.values()), "stats": stats, "sample": sample}
+
+
+def _concurrent_signing(case, rng, signers, n, e, k, viol, stats):
+    """several threads sign with the SAME signer objects; pauses are injected at source lines of the signing code so that whole Sign() calls
+    of one thread fall inside a Sign() call of another"""
+    import sys
+    import threading
+    import time
+    import types
+    from adb_shell.auth import sign_pythonrsa, sign_cryptography, sign_pycryptodome
+    import rsa.pkcs1
+    codes = []
+    for mod in (sign_pythonrsa, sign_cryptography, sign_pycryptodome, rsa.pkcs1):
+        for obj in vars(mod).values():
+            fns = [obj] if isinstance(obj, types.FunctionType) else [f for f in vars(obj).values() if isinstance(f, types.FunctionType)] if isinstance(obj, type) and obj.__module__ == mod.__name__ else []
+            for fn in fns:
+                if fn.__module__ == mod.__name__:
+                    codes.append(fn.__code__)
+                    for c in fn.__code__.co_consts:
+                        if hasattr(c, "co_code"):
+                            codes.append(c)
+    mon = sys.monitoring
+    tool = 3
+    counter = [0]
+    pauses = [0]
+    salt = rng.getrandbits(16)
+
+    def line_cb(code, line):
+        counter[0] += 1
+        r = ((counter[0] + salt) * 2654435761 + line * 40503) & 0xFFFF
+        if r < 0x0500:                   # ~2 % of the lines: long enough for another thread to finish a whole signature
+            pauses[0] += 1
+            time.sleep(0.03)
+        elif r < 0x3000:
+            time.sleep(0)
+    errors = []
+    nthreads = 3
+    per = case.get("signs_per_thread", 12)
+    names = sorted(signers)
+
+    def body(ti):
+        r_ = gen.rng_for("C17th", case["seed"], ti)
+        for j in range(per):
+            name = names[(ti + j) % len(names)]
+            tok = bytes(r_.getrandbits(8) for _ in range(20))
+            try:
+                sig = bytes(signers[name].Sign(tok))
+            except Exception as ex:  # noqa
+                errors.append(("concurrent-sign-raised:" + name, "%s.Sign() raised %s: %s while other threads were signing with the same objects" % (name, type(ex).__name__, ex)))
+                continue
+            em = pow(int.from_bytes(sig, "big"), e, n).to_bytes(k, "big")
+            if len(sig) != k or em != emsa(tok, k):
+                errors.append(("concurrent-sign-invalid:" + name, "%s.Sign(%s) under concurrency does not verify" % (name, tok.hex())))
+    mon.use_tool_id(tool, "verif-c17")
+    try:
+        mon.register_callback(tool, mon.events.LINE, line_cb)
+        for c in codes:
+            mon.set_local_events(tool, c, mon.events.LINE)
+        ths = [threading.Thread(target=body, args=(ti,), daemon=True) for ti in range(nthreads)]
+        for t in ths:
+            t.start()
+        for t in ths:
+            t.join(240)
+        if any(t.is_alive() for t in ths):
+            raise RuntimeError("harness: signing threads did not finish (inconclusive)")
     finally:
-        shutil.rmtree(tmp, ignore_errors=True)
+        for c in codes:
+            try:
+                mon.set_local_events(tool, c, 0)
+            except ValueError:
+                pass
+        mon.register_callback(tool, mon.events.LINE, None)
+        mon.free_tool_id(tool)
+    stats["concurrent_signatures"] = nthreads * per
+    stats["signatures_verified"] += nthreads * per - len(errors)
+    stats["injected_pauses"] = pauses[0]
+    stats["line_events_in_signing_code"] = counter[0]
+    for mech, detail in errors[:3]:
+        viol.append({"mechanism": mech, "detail": detail})
